@@ -219,12 +219,24 @@ func runC09(c *Ctx) {
 					// the LAST item that wrote the row decides (rollback runs in reverse order)
 					if !cellsMatch(b, pre[k]) && !cellsMatch(a, pre[k]) {
 						dirty[k] = bi
+						// the columns that carry the foreign value: tracked by this item and different from both
+						// images (other tracked columns may legitimately be restored by an EARLIER branch that
+						// wrote them and finds its own after image there)
 						var cols []int
-						for ci := range a {
-							cols = append(cols, ci)
-						}
-						for ci := range b {
-							cols = append(cols, ci)
+						seenCol := map[int]bool{}
+						for _, img := range []map[int]string{a, b} {
+							for ci := range img {
+								if seenCol[ci] || pre[k] == nil || ci >= len(pre[k]) {
+									continue
+								}
+								seenCol[ci] = true
+								av, aok := a[ci]
+								bv, bok := b[ci]
+								if (aok && av == pre[k][ci]) || (bok && bv == pre[k][ci]) {
+									continue
+								}
+								cols = append(cols, ci)
+							}
 						}
 						dirtyCols[k] = cols
 					} else {
